@@ -61,6 +61,15 @@ def lit_text(src_seg):
         if '.' not in mant:
             mant = mant + '.0'
         t = f"{mant}e{int(exp)}"
+        return t
+    # canonical spelling of the same decimal: `1.0`, `1.` and `1` all become `1`; `1.60` becomes `1.6` (a respelled literal is not
+    # a change of the code's meaning and must not change the generated text)
+    if '.' in t:
+        t = t.rstrip('0')
+        if t.endswith('.'):
+            t = t[:-1]
+        if t == '' or t == '-':
+            t += '0'
     return t
 
 
@@ -394,6 +403,25 @@ def if_chain(fname, src, node, target, gx):
         return branches, gx.ex(cur.orelse[0].value)
 
 
+def if_tree(fname, src, stmts, target, gx):
+    """any nesting of `if/elif/else` whose leaves are single assignments `target = e`  ->  one Lean `if … then … else …` expression
+    (a flat elif chain prints exactly as `if c1 then e1 / else if c2 then e2 / else en`)"""
+    if len(stmts) != 1:
+        raise Untranslatable(fname, getattr(stmts[0], 'lineno', 0) if stmts else 0, f"branch is not a single statement assigning {target}")
+    st = stmts[0]
+    if isinstance(st, ast.Assign) and len(st.targets) == 1 and isinstance(st.targets[0], ast.Name) and st.targets[0].id == target:
+        return strip_outer(gx.ex(st.value))
+    if isinstance(st, ast.If):
+        if not st.orelse:
+            raise Untranslatable(fname, st.lineno, "if without else in a table")
+        then = if_tree(fname, src, st.body, target, gx)
+        if isinstance(st.body[0], ast.If):
+            then = '(' + then.replace('\n', ' ') + ')'
+        els = if_tree(fname, src, st.orelse, target, gx)
+        return f"if {gx.cond(st.test).replace('==', '=')} then {then}\n  else {els}"
+    raise Untranslatable(fname, st.lineno, f"branch is not a single assignment to {target}")
+
+
 def strip_outer(t):
     # remove one pair of redundant outer parentheses (never a type ascription)
     if t.endswith(': Rat)') or t.endswith(': Int)'):
@@ -421,7 +449,7 @@ def class_chains(fname, src, body, var, target):
             if len(n.body) != 1:
                 raise Untranslatable(fname, n.lineno, f"class {cls} body is not a single if-chain")
             gx = GExpr(fname, src)
-            out[cls] = if_chain(fname, src, n.body[0], target, gx)
+            out[cls] = if_tree(fname, src, n.body, target, gx)
     return out
 
 
@@ -439,11 +467,8 @@ def gen_design_spectra(repo, ns):
             "/-! real twins (used by the bridge theorems of `Props/C20Gen.lean`); `x ** 0.75` is the abstract `pow34`, `x ** 2` is `x * x` -/", ""]
     for prefix, d, var in (('ch', ch, 'tt'), ('sd', sd, 'period')):
         for cls in ('C', 'D', 'E'):
-            branches, els = d[cls]
             text.append(f"noncomputable def {prefix}{cls} (pow34 : ℝ → ℝ) ({var} : ℝ) : ℝ :=")
-            for i, (c, e) in enumerate(branches):
-                text.append(f"  {'if' if i == 0 else 'else if'} {c.replace('==', '=')} then {strip_outer(e)}")
-            text.append(f"  else {strip_outer(els)}")
+            text.append("  " + d[cls])
             text.append("")
     text += [f"end EqsigVerif.{ns}.DesignSpectra", ""]
     return {"DesignSpectra.lean": "\n".join(text)}
